@@ -1328,6 +1328,13 @@ impl super::DiskFS for Disk {
             error!("chunk length {} is incompatible with this file image",fimg.chunk_len);
             return Err(Box::new(Error::IncorrectDOS));
         }
+        // The attribute byte is copied from the file image.  An image fetched from a directory (or one carrying the
+        // volume label bit) would create a second directory entry pointing at a copy of the directory's clusters
+        // (cross-linking every file in it), or an entry that is never listed while its clusters stay allocated.
+        if fimg.access.len()>0 && fimg.access[0] & (directory::VOLUME_ID | directory::DIRECTORY) != 0 {
+            error!("file image has the volume label or directory attribute, it cannot be written as a file");
+            return Err(Box::new(Error::WriteFault));
+        }
         match self.prepare_to_write(&fimg.full_path) {
             Ok((name,mut loc)) => {
                 // create the entry
